@@ -447,6 +447,11 @@ impl Retrier {
             }
 
             let tower = wt_client.towers.get(&self.tower_id).unwrap();
+            // Nothing else is sent to a tower once it has been proven to misbehave (it may have been flagged by someone
+            // else, e.g. while this retrier was backing off).
+            if tower.status.is_misbehaving() {
+                return Err(Error::permanent(RetryError::Abandoned));
+            }
             (
                 self.tower_id,
                 tower.status,
